@@ -11,6 +11,7 @@ import (
 func oracle(stream, in, outp string) {
 	out := wire.Create(outp)
 	defer out.Close()
+	defer writeStats(outp + ".stats")
 	s := &sdsSUT{}
 	defer s.close()
 	st := &streamSUT{}
@@ -77,4 +78,16 @@ func insertOp(r string, idx int) string {
 		}
 	}
 	return fmt.Sprintf("%s op=%d", r, idx)
+}
+
+// writeStats stores the oracle's outcome counters as "key count" lines next to the verdict file.
+func writeStats(path string) {
+	if len(oracleStats) == 0 {
+		return
+	}
+	o := wire.Create(path)
+	defer o.Close()
+	for k, v := range oracleStats {
+		o.Line(k, fmt.Sprint(v))
+	}
 }
